@@ -1580,6 +1580,7 @@ class MacroFunction(Macro):
                             )
                     last_cat = True
                 elif tok.token == "#":
+                    prev_white = tok.prev_white
                     idx += 1
                     if idx == len(self.replacement):
                         raise ParseError(
@@ -1594,7 +1595,7 @@ class MacroFunction(Macro):
                             "# was not followed by a macro argument.",
                         )
                     tok = Lexer.stringify(tok)
-                    tok.prev_white = tok.prev_white
+                    tok.prev_white = prev_white
                     last_cat = True
                     res_tokens.append(tok)
                 else:
